@@ -34,6 +34,10 @@ TOL = 1e-6
 def cases(draw):
     spec = draw(specs.model_spec(max_mets=5, max_rxns=7, min_rxns=2, max_genes=6, min_genes=2, families=("pathway", "pathway", "sparse"),
                                  palette=draw(st.sampled_from(["zero", "zero", "finite"])), objective="nonneg", directions=("max", "max", "max", "min")))
+    # one model in four lists a gene that no rule uses (left behind by a rule change or declared in a file): it is one of
+    # "the model's genes" and gets its rows when the list is omitted (since seeded change C06-8)
+    if draw(st.integers(0, 3)) == 0:
+        spec["genes"].append({"id": "gUNUSED", "name": "", "notes": {}, "annotation": {}, "unused": True})
     return {
         "spec": spec,
         "path": draw(st.sampled_from(build.BUILD_PATHS_LP)),
